@@ -522,6 +522,144 @@ Proof.
 Qed.
 
 
+(* ---- quantifier arguments: FunctionCallArgExpr::lex_with on a field / on `(`, `not`, `!` ---- *)
+Lemma char_len_ascii b : b < 128 -> char_len b = 1%nat.
+Proof. intros H. unfold char_len. apply N.ltb_lt in H. now rewrite H. Qed.
+Lemma first_chars_1 b1 : b1 < 128 -> first_chars [b1] = (Some b1, None, None).
+Proof. intros H. unfold first_chars, next_char. cbv zeta. rewrite (char_len_ascii b1 H). reflexivity. Qed.
+Lemma first_chars_2 b1 b2 s : b1 < 128 -> exists c3, first_chars (b1 :: b2 :: s) = (Some b1, Some b2, c3).
+Proof.
+  intros H. unfold first_chars, next_char. cbv zeta. rewrite (char_len_ascii b1 H). cbn [firstn skipn hd_error].
+  assert (E : exists n, char_len b2 = S n) by (unfold char_len; destruct (b2 <? 128), (b2 <? 224), (b2 <? 240); eauto).
+  destruct E as (n & ->). cbn [firstn hd_error].
+  destruct (skipn (S n) (b2 :: s)) as [|b3 s3]; eexists; reflexivity.
+Qed.
+
+Definition second_ok (tl : bytes) : Prop := match tl with b2 :: _ => b2 <> 34 /\ b2 <> 35 | [] => True end.
+
+Lemma ident_byte_not_quote b : ident_byte b -> b <> 34 /\ b <> 35 /\ b <> 40 /\ b < 128.
+Proof.
+  unfold ident_byte, is_ascii. intros H. apply andb_true_iff in H. destruct H as [H1 H2]. apply N.ltb_lt in H1.
+  repeat split; try exact H1; intros ->; discriminate H2.
+Qed.
+
+Lemma name_second name X : ident_text name -> second_ok X ->
+  exists b1 tl, name ++ X = b1 :: tl /\ ident_byte b1 /\ second_ok tl.
+Proof.
+  intros Hn HX. destruct Hn as [seg Hne Hs|seg r0 Hne Hs _]; (destruct Hs as [|b1 seg' Hb1 Hs']; [congruence|]).
+  - exists b1, (seg' ++ X). split; [reflexivity|]. split; [exact Hb1|].
+    destruct Hs' as [|b2 ? Hb2 _]; [exact HX|]. cbn. destruct (ident_byte_not_quote b2 Hb2) as (A & B & _). auto.
+  - exists b1, ((seg' ++ 46 :: r0) ++ X). split; [reflexivity|]. split; [exact Hb1|].
+    destruct Hs' as [|b2 ? Hb2 _]; [cbn; split; discriminate|]. cbn. destruct (ident_byte_not_quote b2 Hb2) as (A & B & _). auto.
+Qed.
+
+Lemma follow_second r : name_follow r -> second_ok r.
+Proof. destruct r as [|b r]; [exact (fun _ => I)|]. intros H. unfold second_ok. follow_solve H; split; discriminate. Qed.
+Lemma idx_second t0 itxt idx t r : idx_text t0 itxt idx t -> name_follow r -> second_ok (itxt ++ r).
+Proof. intros Hi Hr. destruct Hi; [now apply follow_second|..]; cbn; split; discriminate. Qed.
+
+(* the argument begins with a field name: IndexExpr first, then a comparison if an operator follows *)
+Lemma lex_arg_field f d b1 tl :
+  ident_byte b1 -> second_ok tl ->
+  lex_alts unary_ops (b1 :: tl) = None -> lex_quant_call (b1 :: tl) = None ->
+  lex_arg sch st (S f) d (b1 :: tl) =
+  match lex_index_expr sch st f d (b1 :: tl) with
+  | LOk lhs rest =>
+      match lex_alts comparison_ops (skip_space rest) with
+      | Some _ => lmap ALogical (lex_with_lhs sch st f d rest lhs)
+      | None => LOk (AIndex lhs) rest
+      end
+  | LFuel => LFuel
+  | x => lex_arg sch st (S f) d (b1 :: tl)
+  end.
+Proof.
+  intros Hb Hs Hu Hq. destruct (ident_byte_not_quote b1 Hb) as (N34 & N35 & N40 & Hlt).
+  destruct (lex_index_expr sch st f d (b1 :: tl)) as [lhs rest|k a n| |] eqn:Ei; try reflexivity.
+  - cbn [lex_arg].
+    assert (Hc : exists c2 c3, first_chars (b1 :: tl) = (Some b1, c2, c3) /\
+                               match c2 with Some 35 | Some 34 => False | _ => True end).
+    { destruct tl as [|b2 s0].
+      - rewrite (first_chars_1 b1 Hlt). eexists _, _. split; [reflexivity|exact I].
+      - destruct (first_chars_2 b1 b2 s0 Hlt) as (c3 & ->). eexists _, _. split; [reflexivity|].
+        destruct Hs as [A B]. destruct b2 as [|p]; [exact I|]. do 6 (try (destruct p as [p|p|]); try exact I); congruence. }
+    destruct Hc as (c2 & c3 & -> & Hc2). rewrite Hu, Hq, Ei.
+    replace (b1 =? 34) with false by (symmetry; now apply N.eqb_neq).
+    replace (b1 =? 40) with false by (symmetry; now apply N.eqb_neq).
+    assert (E2 : (b1 =? 114) && match c2 with Some 35 | Some 34 => true | _ => false end = false).
+    { destruct c2 as [[|p]|]; try (now rewrite andb_false_r).
+      do 6 (try (destruct p as [p|p|]); try (now rewrite andb_false_r)); contradiction. }
+    rewrite E2. cbn [orb]. destruct (_ || _ || _); reflexivity.
+  - cbn [lex_arg].
+    assert (Hc : exists c2 c3, first_chars (b1 :: tl) = (Some b1, c2, c3) /\
+                               match c2 with Some 35 | Some 34 => False | _ => True end).
+    { destruct tl as [|b2 s0].
+      - rewrite (first_chars_1 b1 Hlt). eexists _, _. split; [reflexivity|exact I].
+      - destruct (first_chars_2 b1 b2 s0 Hlt) as (c3 & ->). eexists _, _. split; [reflexivity|].
+        destruct Hs as [A B]. destruct b2 as [|p]; [exact I|]. do 6 (try (destruct p as [p|p|]); try exact I); congruence. }
+    destruct Hc as (c2 & c3 & -> & Hc2). rewrite Hu, Hq, Ei.
+    replace (b1 =? 34) with false by (symmetry; now apply N.eqb_neq).
+    replace (b1 =? 40) with false by (symmetry; now apply N.eqb_neq).
+    assert (E2 : (b1 =? 114) && match c2 with Some 35 | Some 34 => true | _ => false end = false).
+    { destruct c2 as [[|p]|]; try (now rewrite andb_false_r).
+      do 6 (try (destruct p as [p|p|]); try (now rewrite andb_false_r)); contradiction. }
+    rewrite E2. cbn [orb]. destruct (_ || _ || _); reflexivity.
+Qed.
+
+(* the argument begins with `(`, `!` or `not`: a logical expression *)
+Lemma lex_arg_logical f d t : (exists x, t = 40 :: x \/ t = 33 :: x \/ t = bs "not" ++ x) ->
+  lex_arg sch st (S f) d t = lmap ALogical (lex_logical sch st f d t).
+Proof.
+  intros (x & [->|[->| ->]]).
+  - cbn [lex_arg]. destruct x as [|b2 s0].
+    + rewrite (first_chars_1 40) by reflexivity. reflexivity.
+    + destruct (first_chars_2 40 b2 s0 ltac:(reflexivity)) as (c3 & ->). reflexivity.
+  - cbn [lex_arg]. destruct x as [|b2 s0].
+    + rewrite (first_chars_1 33) by reflexivity. reflexivity.
+    + destruct (first_chars_2 33 b2 s0 ltac:(reflexivity)) as (c3 & ->). reflexivity.
+  - cbn [lex_arg]. change (bs "not" ++ x) with (110 :: 111 :: 116 :: x).
+    destruct (first_chars_2 110 111 (116 :: x) ltac:(reflexivity)) as (c3 & ->). reflexivity.
+Qed.
+
+Lemma cmp_op_found t sp sym lit c wsb y : cmp_text_s sch t sp sym lit c -> layout_ws wsb -> tok_start lit ->
+  exists o, lex_alts comparison_ops (sp ++ wsb ++ lit ++ y) = Some o.
+Proof.
+  intros H Hw Hs. pose proof (no_eq_ws_tok wsb lit y Hw Hs) as Hne.
+  destruct H as [t sp sym lit c H|t name li Hp Hgn Hli]; [|eexists; apply in_op_lex].
+  destruct H as [t o sp sym lit v (a1 & a2 & Hin & Hsp) Hp Hl|sp sym lit z (a1 & a2 & Hin & Hsp) Hl|lit b fm Hl
+                 |txt l Hl|txt l Hl|txt l Hl]; try (eexists; apply in_op_lex).
+  - destruct (comparison_alias_table a1 a2 _ _ Hin Hne) as [T1 T2]. destruct Hsp as [[-> _]|[-> _]]; eauto.
+  - destruct (comparison_alias_table a1 a2 _ _ Hin Hne) as [T1 T2]. destruct Hsp as [[-> _]|[-> _]]; eauto.
+  - eexists. reflexivity.
+Qed.
+
+Lemma cmp_sp_nospace t sp sym lit c y : cmp_text_s sch t sp sym lit c -> skip_space (sp ++ y) = sp ++ y.
+Proof.
+  intros H. destruct H as [t sp sym lit c H|t name li Hp Hgn Hli]; [|reflexivity].
+  destruct H as [t o sp sym lit v (a1 & a2 & Hin & Hsp) Hp Hl|sp sym lit z (a1 & a2 & Hin & Hsp) Hl|lit b fm Hl
+                 |txt l Hl|txt l Hl|txt l Hl]; try reflexivity.
+  - apply (comparison_alias_nonspace _ _ _ Hin). destruct Hsp as [[-> _]|[-> _]]; cbn; auto.
+  - apply (comparison_alias_nonspace _ _ _ Hin). destruct Hsp as [[-> _]|[-> _]]; cbn; auto.
+Qed.
+
+Lemma quant_call_lex qsp q ws1 x : In (qsp, q) [(bs "any", QAny); (bs "all", QAll)] -> layout_ws ws1 ->
+  starts_with [40] (qsp ++ ws1 ++ 40 :: x) = None /\ lex_alts unary_ops (qsp ++ ws1 ++ 40 :: x) = None /\
+  lex_quant_call (qsp ++ ws1 ++ 40 :: x) = Some (q, ws1 ++ 40 :: x).
+Proof.
+  intros Hq Hw.
+  assert (E : starts_with [40] (skip_space (ws1 ++ 40 :: x)) = Some x).
+  { rewrite skip_space_ws by assumption. cbn [skip_space]. change (is_space 40) with false. cbv iota.
+    cbn [starts_with]. now rewrite N.eqb_refl. }
+  assert (G : forall kw qq, lex_alts quant_ops (kw ++ ws1 ++ 40 :: x) = Some (qq, ws1 ++ 40 :: x) ->
+                lex_quant_call (kw ++ ws1 ++ 40 :: x) = Some (qq, ws1 ++ 40 :: x)).
+  { intros kw qq Ek. unfold lex_quant_call. rewrite Ek.
+    change (match starts_with [40] (skip_space (ws1 ++ 40 :: x)) with Some _ => Some (qq, ws1 ++ 40 :: x) | None => None end
+            = Some (qq, ws1 ++ 40 :: x)). now rewrite E. }
+  destruct Hq as [Hq|[Hq|[]]]; injection Hq as <- <-; (split; [reflexivity|]); (split; [reflexivity|]); apply G; reflexivity.
+Qed.
+
+Lemma quant_tok qsp q x : In (qsp, q) [(bs "any", QAny); (bs "all", QAll)] -> tok_start (qsp ++ x).
+Proof. intros [Hq|[Hq|[]]]; injection Hq as <- <-; cbn; repeat split; discriminate. Qed.
+
 (* ---- the mutual induction ---- *)
 Scheme GSimple_mind := Minimality for GSimple Sort Prop
   with GTail_mind := Minimality for GTail Sort Prop
@@ -653,6 +791,90 @@ Proof.
     subst x. rewrite (skip_space_tok t _ Hs).
     eapply okf_bind; [apply Hp; now apply close_log_end|].
     rewrite (expect_close_layout ws2 r H2). cbn [lbind]. now right.
+  - (* any( ) / all( ) over a logical expression *)
+    intros d q qsp ws1 ws2 t le ws3 Hq H1 H2 H3 Hd _ (Hs & He & Hty & Hp) Hst.
+    split; [exact (quant_tok qsp q _ Hq)|].
+    split. { change (40 :: ws2 ++ t ++ ws3 ++ [41]) with ([40] ++ ws2 ++ t ++ ws3 ++ [41]). rewrite !app_assoc. apply tok_end_last. split; reflexivity. }
+    split; [exact I|]. split; [reflexivity|].
+    intros r f Hr. destruct f as [|f]; [now left|].
+    replace ((qsp ++ ws1 ++ 40 :: ws2 ++ t ++ ws3 ++ [41]) ++ r) with (qsp ++ ws1 ++ 40 :: (ws2 ++ t ++ ws3 ++ 41 :: r))
+      by (repeat (cbn [app]; rewrite <- ?app_assoc); reflexivity).
+    destruct (quant_call_lex qsp q ws1 (ws2 ++ t ++ ws3 ++ 41 :: r) Hq H1) as (E1 & E2 & E3).
+    remember (qsp ++ ws1 ++ 40 :: ws2 ++ t ++ ws3 ++ 41 :: r) as inp eqn:Ei. cbn [lex_simple]. rewrite E1, E2, E3. subst inp.
+    rewrite (increase_ok d _ Hd). cbn [lbind]. rewrite skip_space_ws by assumption.
+    cbn [skip_space]. change (is_space 40) with false. cbv iota. unfold expect at 1. cbn [starts_with]. rewrite N.eqb_refl. cbn [lbind].
+    rewrite skip_space_ws by assumption. rewrite (skip_space_tok t _ Hs).
+    assert (Hst' : exists y, t ++ ws3 ++ 41 :: r = 40 :: y \/ t ++ ws3 ++ 41 :: r = 33 :: y \/ t ++ ws3 ++ 41 :: r = bs "not" ++ y).
+    { destruct Hst as (x & [->|[->| ->]]); exists (x ++ ws3 ++ 41 :: r);
+        [left; reflexivity|right; left; reflexivity|right; right; now rewrite <- app_assoc]. }
+    destruct f as [|f]; [now left|]. rewrite (lex_arg_logical f (d + 1) _ Hst').
+    destruct (Hp (ws3 ++ 41 :: r) f (close_log_end ws3 r H3)) as [E|E]; rewrite E; [now left|]. unfold lmap. cbn [lbind].
+    rewrite Hty. rewrite (expect_close_layout ws3 r H3). cbn [lbind]. now right.
+  - (* any( ) / all( ) over one comparison *)
+    intros d q qsp ws1 ws2 name i t0 itxt idx t wsa sp sym wsb lit c ws3 Hq H1 H2 H3 Hd Hnf Hi Heach Ha Hb Hsym Hc Hls Hle.
+    pose proof Hnf as (Hn & Hkw & Hg & Hty).
+    pose proof (field_ty_iexpr i t0 itxt idx t Hty Hi) as Hlt.
+    destruct (cmp_not_istrue _ _ _ _ _ Hc) as [Hnc Hp3].
+    split; [exact (quant_tok qsp q _ Hq)|].
+    split. { change (40 :: ws2 ++ (name ++ itxt ++ wsa ++ sp ++ wsb ++ lit) ++ ws3 ++ [41]) with ([40] ++ ws2 ++ (name ++ itxt ++ wsa ++ sp ++ wsb ++ lit) ++ ws3 ++ [41]). rewrite !app_assoc. apply tok_end_last. split; reflexivity. }
+    split; [exact I|]. split; [reflexivity|].
+    intros r f Hr. destruct f as [|f]; [now left|].
+    set (tail := ws3 ++ 41 :: r).
+    replace ((qsp ++ ws1 ++ 40 :: ws2 ++ (name ++ itxt ++ wsa ++ sp ++ wsb ++ lit) ++ ws3 ++ [41]) ++ r)
+      with (qsp ++ ws1 ++ 40 :: (ws2 ++ name ++ itxt ++ (wsa ++ sp ++ wsb ++ lit ++ tail)))
+      by (unfold tail; repeat (cbn [app]; rewrite <- ?app_assoc); reflexivity).
+    destruct (quant_call_lex qsp q ws1 (ws2 ++ name ++ itxt ++ (wsa ++ sp ++ wsb ++ lit ++ tail)) Hq H1) as (E1 & E2 & E3).
+    remember (qsp ++ ws1 ++ 40 :: ws2 ++ name ++ itxt ++ (wsa ++ sp ++ wsb ++ lit ++ tail)) as inp eqn:Ei. cbn [lex_simple]. rewrite E1, E2, E3. subst inp.
+    rewrite (increase_ok d _ Hd). cbn [lbind]. rewrite skip_space_ws by assumption.
+    cbn [skip_space]. change (is_space 40) with false. cbv iota. unfold expect at 1. cbn [starts_with]. rewrite N.eqb_refl. cbn [lbind].
+    rewrite skip_space_ws by assumption. rewrite (skip_space_tok name _ (proj1 (ident_text_ends name Hn))).
+    assert (Htf : atom_follow tail) by (apply close_log_end; assumption).
+    assert (Hnf' : name_follow (wsa ++ sp ++ wsb ++ lit ++ tail)).
+    { destruct wsa as [|c0 wsa].
+      - destruct Hsym as [->|Hs']; [|congruence]. destruct (cmp_sym_first _ _ _ _ Hc) as (b & x & -> & Hb').
+        cbn. tauto.
+      - apply (layout_first_follow (c0 :: wsa)); [assumption|discriminate]. }
+    destruct (name_second name _ Hn (idx_second _ _ _ _ _ Hi Hnf')) as (b1 & tl & Etl & Hb1 & Hsec).
+    destruct (name_not_special name _ Hn Hkw (idx_then_stop _ _ _ _ _ Hi Hnf')) as (_ & U2 & U3).
+    destruct f as [|f]; [now left|].
+    pose proof (index_expr_field f (d + 1) name i t0 itxt idx t _ Hnf Hi Hnf') as Hix.
+    rewrite Etl in *. rewrite (lex_arg_field f (d + 1) b1 tl Hb1 Hsec U2 U3).
+    destruct Hix as [E|E]; rewrite E; [now left|].
+    rewrite skip_space_ws by assumption. rewrite (cmp_sp_nospace _ _ _ _ _ _ Hc).
+    destruct (cmp_op_found t sp sym lit c wsb tail Hc Hb Hls) as (o & Eo). rewrite Eo.
+    destruct f as [|f]; [now left|].
+    rewrite (cmp_parses t sp sym lit c Hc f (d + 1) (IField i idx) wsa wsb tail Hlt Ha Hb Hls Htf).
+    unfold lmap. cbn [lbind]. cbn [arg_map_each_count iexpr_idx ty_lexpr]. unfold ty_cmp_of. cbn [iexpr_idx]. rewrite Heach.
+    unfold tail. rewrite (expect_close_layout ws3 r H3). cbn [lbind]. now right.
+  - (* any( ) / all( ) over a bare Array(Bool) left-hand side *)
+    intros d q qsp ws1 ws2 name i t0 itxt idx ws3 Hq H1 H2 H3 Hd Hnf Hi Heach.
+    pose proof Hnf as (Hn & Hkw & Hg & Hty).
+    pose proof (field_ty_iexpr i t0 itxt idx _ Hty Hi) as Hlt.
+    split; [exact (quant_tok qsp q _ Hq)|].
+    split. { change (40 :: ws2 ++ (name ++ itxt) ++ ws3 ++ [41]) with ([40] ++ ws2 ++ (name ++ itxt) ++ ws3 ++ [41]). rewrite !app_assoc. apply tok_end_last. split; reflexivity. }
+    split; [exact I|]. split; [reflexivity|].
+    intros r f Hr. destruct f as [|f]; [now left|].
+    set (tail := ws3 ++ 41 :: r).
+    replace ((qsp ++ ws1 ++ 40 :: ws2 ++ (name ++ itxt) ++ ws3 ++ [41]) ++ r)
+      with (qsp ++ ws1 ++ 40 :: (ws2 ++ name ++ itxt ++ tail))
+      by (unfold tail; repeat (cbn [app]; rewrite <- ?app_assoc); reflexivity).
+    destruct (quant_call_lex qsp q ws1 (ws2 ++ name ++ itxt ++ tail) Hq H1) as (E1 & E2 & E3).
+    remember (qsp ++ ws1 ++ 40 :: ws2 ++ name ++ itxt ++ tail) as inp eqn:Ei. cbn [lex_simple]. rewrite E1, E2, E3. subst inp.
+    rewrite (increase_ok d _ Hd). cbn [lbind]. rewrite skip_space_ws by assumption.
+    cbn [skip_space]. change (is_space 40) with false. cbv iota. unfold expect at 1. cbn [starts_with]. rewrite N.eqb_refl. cbn [lbind].
+    rewrite skip_space_ws by assumption. rewrite (skip_space_tok name _ (proj1 (ident_text_ends name Hn))).
+    assert (Htf : atom_follow tail) by (apply close_log_end; assumption).
+    pose proof (atom_name_follow tail Htf) as Hnf'.
+    destruct (name_second name _ Hn (idx_second _ _ _ _ _ Hi Hnf')) as (b1 & tl & Etl & Hb1 & Hsec).
+    destruct (name_not_special name _ Hn Hkw (idx_then_stop _ _ _ _ _ Hi Hnf')) as (_ & U2 & U3).
+    destruct f as [|f]; [now left|].
+    pose proof (index_expr_field f (d + 1) name i t0 itxt idx _ _ Hnf Hi Hnf') as Hix.
+    rewrite Etl in *. rewrite (lex_arg_field f (d + 1) b1 tl Hb1 Hsec U2 U3).
+    destruct Hix as [E|E]; rewrite E; [now left|].
+    unfold tail at 1. rewrite skip_space_ws by assumption. cbn [skip_space]. change (is_space 41) with false. cbv iota.
+    change (lex_alts comparison_ops (41 :: r)) with (@None (cop * bytes)).
+    cbn [iexpr_idx]. rewrite Heach. cbn [Nat.ltb Nat.leb]. rewrite Hlt.
+    unfold tail. rewrite (expect_close_layout ws3 r H3). cbn [lbind]. now right.
   - (* empty tail *)
     intros K d. split; [now left|]. split; [intros r Hr; exact Hr|].
     intros r [Hr He]. cbn [app ChainRep]. auto.
